@@ -743,7 +743,12 @@ func describeShallow(v ssa.Value, d func(ssa.Value) string) string {
 	case *ssa.Alloc:
 		return "local:" + x.Comment
 	case *ssa.BinOp:
-		return "(" + d(x.X) + " " + x.Op.String() + " " + d(x.Y) + ")"
+		// x + 0, x - 0, x | 0: the value is x (a helper given a zero offset)
+		ys := d(x.Y)
+		if ys == "0" && (x.Op == token.ADD || x.Op == token.SUB || x.Op == token.OR || x.Op == token.XOR) {
+			return d(x.X)
+		}
+		return "(" + d(x.X) + " " + x.Op.String() + " " + ys + ")"
 	case *ssa.Call:
 		return describeCall(x.Common(), d)
 	case *ssa.Extract:
@@ -1144,11 +1149,13 @@ func unbox(v ssa.Value) ssa.Value {
 // returns lists the Return instructions of fn.
 func returnsOf(fn *ssa.Function) []*ssa.Return {
 	var out []*ssa.Return
-	eachInstr(fn, func(ins ssa.Instruction) {
-		if r, ok := ins.(*ssa.Return); ok {
-			out = append(out, r)
+	for _, b := range fn.Blocks { // fn's own returns only: helpers walked in place return to fn, not from it
+		for _, ins := range b.Instrs {
+			if r, ok := ins.(*ssa.Return); ok {
+				out = append(out, r)
+			}
 		}
-	})
+	}
 	return out
 }
 
@@ -1327,6 +1334,15 @@ func anonFuncs(fn *ssa.Function) []*ssa.Function {
 			if c, ok := ins.(*ssa.Call); ok {
 				if g := staticCallee(c.Common()); g != nil && isNewHelper(g) && !seen[g] {
 					seen[g] = true
+					out = append(out, anonFuncs(g)...)
+				}
+			}
+			switch x := ins.(type) {
+			case *ssa.Defer, *ssa.Go:
+				// `defer p.cleanup(x)` / `go p.work(x)` where the callee is a literal that became a method
+				if g := staticCallee(x.(ssa.CallInstruction).Common()); g != nil && isNewHelper(g) && !seen[g] {
+					seen[g] = true
+					out = append(out, g)
 					out = append(out, anonFuncs(g)...)
 				}
 			}
